@@ -64,6 +64,15 @@ func (reg *ResourceRegistry) GetFile(identifier string) (*File, error) {
 		if err != nil {
 			log.Tracef("%s: failed to download %s: %s, retrying (%d)", reg.Name, file.versionedPath, err, tries+1)
 		} else {
+			// Update resource version state: the file is available locally now
+			// and must not be downloaded again.
+			res.Lock()
+			file.version.Available = true
+			if res.VerificationOptions != nil {
+				file.version.SigAvailable = true
+			}
+			res.Unlock()
+
 			file.markActiveWithLocking()
 
 			// TODO: We just download the file - should we verify it again?
